@@ -1,3 +1,466 @@
-"""C01.4-C01.7 and the re-check of atom constraints (filled in below)."""
-def run(report, pm):
-    pass
+"""C01.4 - C01.7 and C01.K.
+
+C01.4  cross-module names: relative imports of emitted library modules resolve to an emitted
+       module that binds the imported (possibly hole-built) name at top level
+C01.5  transport gating: the generator's skip predicate (extracted from Generator._render_template by
+       Engine P and partially evaluated on the on-disk template names) emits every module the emitted
+       clients import, for each transport set x rest_async flag; the transport registries hold exactly
+       the requested labels, gRPC first
+C01.6  with_context re-binds every wrapper-typed dataclass field
+C01.7  JSON artefacts come from MessageToJson
+C01.K  atom constraints are justified by the Python definitions they cite
+"""
+from __future__ import annotations
+
+import ast
+import os
+import re
+
+from .. import core
+from ..constraints import CONSTRAINTS
+from ..pyeval import Evaluator, UNKNOWN
+from ..pymodel import PyModel, string_properties, strip_docstring, parse_ann
+from ..pyscope import bound_in_block
+from ..tmodel import TemplateSet, cover, SymDict
+
+REST_ASYNC_ATOM = ("api.all_library_settings[api.naming.proto_package].python_settings.experimental_features."
+                   "rest_async_io_enabled")
+SERVICE_DIR = "%namespace/%name_%version/%sub/services/%service/"
+TRANSPORT_SETS = (["grpc"], ["rest"], ["grpc", "rest"])
+
+
+# ---------------------------------------------------------------------------
+# C01.5a: generator skip predicate
+
+
+def extract_skip_predicate(pm: PyModel, rule):
+    fn = pm.func("gapic.generator.generator.Generator._render_template").node
+    loop = None
+    for n in ast.walk(fn):
+        if isinstance(n, ast.For) and "services" in ast.unparse(n.iter):
+            loop = n
+    rule.need(loop is not None, "for service in api_schema.services.values() in _render_template")
+    cond = None
+    for st in loop.body:
+        if isinstance(st, ast.If) and any(isinstance(b, ast.Continue) for b in st.body):
+            cond = st.test
+    rule.need(cond is not None, "`if <skip predicate>: continue` in the %service loop")
+    return cond
+
+
+def inline_function_result(pm: PyModel, qual: str, env: dict):
+    """Evaluate a straight-line helper (assignments then `return expr`)."""
+    fn = pm.func(qual).node
+    ev = Evaluator(env)
+    for st in strip_docstring(fn.body):
+        if isinstance(st, ast.Assign) and len(st.targets) == 1 and isinstance(st.targets[0], ast.Name):
+            env[st.targets[0].id] = ev.ev(st.value)
+        elif isinstance(st, ast.Return):
+            return ev.ev(st.value)
+        else:
+            return UNKNOWN
+    return UNKNOWN
+
+
+def emitted_service_templates(pm: PyModel, ts: TemplateSet, cond, transport, rest_async: bool, rule):
+    out = set()
+    for name in ts.public_names():
+        if "%service" not in name:
+            continue
+
+        def desired(template_name, opts):
+            return inline_function_result(pm, "gapic.generator.generator.Generator._is_desired_transport",
+                                          {"template_name": template_name, "opts": opts, "opts.transport": list(transport)})
+
+        def hook(dotted, node):
+            if dotted.endswith("rest_async_io_enabled"):
+                return rest_async
+            return UNKNOWN
+        env = {"template_name": name, "skip_subpackages": False, "opts": {"transport": list(transport)},
+               "opts.transport": list(transport)}
+        ev = Evaluator(env, funcs={"self._is_desired_transport": desired}, attr_hook=hook)
+        v = ev.ev(cond)
+        rule.need(v is not UNKNOWN, f"skip predicate evaluates for {name}", "partial evaluation left the predicate undetermined")
+        if not v:
+            out.add(name)
+    return out
+
+
+# ---------------------------------------------------------------------------
+# skeleton helpers
+
+
+def rel_imports(sk, tree):
+    """(level, module, [names], node, in_try_importerror) for every relative ImportFrom."""
+    out = []
+
+    def visit(body, guarded):
+        for st in body:
+            if isinstance(st, ast.ImportFrom) and st.level:
+                out.append((st.level, st.module or "", [a.name for a in st.names], st, guarded))
+            elif isinstance(st, ast.Try):
+                catches = any(h.type is None or "ImportError" in ast.unparse(h.type) or "Exception" in ast.unparse(h.type)
+                              for h in st.handlers)
+                visit(st.body, guarded or catches)
+                for h in st.handlers:
+                    visit(h.body, guarded)
+                visit(st.orelse, guarded)
+                visit(st.finalbody, guarded)
+            elif isinstance(st, (ast.If, ast.With, ast.For, ast.While)):
+                visit(st.body, guarded)
+                visit(getattr(st, "orelse", []), guarded)
+    visit(tree.body, False)
+    return out
+
+
+def norm_roots(s: str) -> str:
+    """the per-file roots `service` / `proto` are elements of api.services / api.protos in aggregating templates"""
+    s = re.sub(r"ELEM\(api\.services(\.values\(\))?\)", "service", s)
+    s = re.sub(r"ELEM\(api\.(protos|all_protos)(\.values\(\))?\)", "proto", s)
+    return s
+
+
+def top_level_names(sk, tree):
+    names = set()
+    bound_in_block(tree.body, names)
+    return {norm_roots(sk.describe(n)) for n in names}
+
+
+def resolve_template(ts: TemplateSet, importer: str, level: int, module: str, sk):
+    """Map a relative import inside the file emitted by `importer` to the template of the target module."""
+    parts = importer.split("/")[:-1]
+    if level > 1:
+        parts = parts[: -(level - 1)]
+    for seg in [s for s in module.split(".") if s]:
+        d = sk.describe(seg)
+        if d.startswith("{") and d.endswith("}"):
+            canon = d[1:-1]
+            if re.search(r"services\b.*\.name\|snake_case\(\)$", canon) or canon.endswith(".module_name") and "service" in canon.lower():
+                seg = "%service"
+            elif canon.endswith(".module_name"):
+                seg = "%proto"
+            else:
+                return None, f"unrecognised hole segment {d}"
+        parts.append(seg)
+    base = "/".join(parts)
+    for cand in (base + ".py.j2", base + "/__init__.py.j2"):
+        if ts.exists(cand):
+            return cand, None
+    return None, f"no template emits module {base}"
+
+
+# ---------------------------------------------------------------------------
+
+
+def check_module_graph(report, pm: PyModel):
+    r4 = report.rule("C01.4", "relative imports between emitted library modules name a module that is emitted and "
+                              "binds the imported name at top level", floor=20)
+    r5 = report.rule("C01.5", "per transport set x rest_async flag: modules imported by the emitted clients are emitted; "
+                              "registry keys = requested transports, gRPC first; async client iff gRPC", floor=6)
+    ts = TemplateSet(core.TEMPLATES, unfold={k: v[0] for k, v in string_properties(pm).items()})
+    cond = extract_skip_predicate(pm, r5)
+    lib_templates = [n for n in ts.public_names() if n.startswith("%namespace/%name_%version/") and n.endswith(".py.j2")]
+    r4.need(len(lib_templates) >= 10, "library .py templates")
+    gen_py = os.path.join(core.GAPIC, "generator/generator.py")
+    for transport in TRANSPORT_SETS:
+        for rest_async in (False, True):
+            cfg = f"transport={'+'.join(transport)},rest_async={rest_async}"
+            emitted = emitted_service_templates(pm, ts, cond, transport, rest_async, r5)
+            r5.instance({"config": cfg, "emitted": sorted(os.path.basename(e) for e in emitted)})
+            # property statement: one sync client always; asyncio client iff grpc (or rest_async experiment)
+            has_client = SERVICE_DIR + "client.py.j2" in emitted
+            has_async = SERVICE_DIR + "async_client.py.j2" in emitted
+            r5.check(has_client, gen_py, 0, f"skip predicate under {cfg}", "client.py is not emitted")
+            r5.check(has_async == ("grpc" in transport or rest_async), gen_py, 0, f"skip predicate under {cfg} (async_client)",
+                     f"async_client.py emitted={has_async}, expected {'grpc' in transport or rest_async}")
+            for t, want in (("transports/grpc.py.j2", "grpc" in transport), ("transports/grpc_asyncio.py.j2", "grpc" in transport),
+                            ("transports/rest.py.j2", "rest" in transport), ("transports/rest_base.py.j2", "rest" in transport),
+                            ("transports/rest_asyncio.py.j2", "rest" in transport and rest_async),
+                            ("transports/base.py.j2", True), ("transports/__init__.py.j2", True)):
+                got = SERVICE_DIR + t in emitted
+                if t == "transports/rest_asyncio.py.j2":
+                    # emitted whenever the flag is on and 'rest' matches the name; never without the flag
+                    r5.check((not got) or rest_async, gen_py, 0, f"skip predicate {t} under {cfg}", "rest_asyncio emitted without the flag")
+                    if want:
+                        r5.check(got, gen_py, 0, f"skip predicate {t} under {cfg}", "rest_asyncio not emitted although requested")
+                    continue
+                r5.check(got == want, gen_py, 0, f"skip predicate {t} under {cfg}", f"emitted={got}, expected={want}")
+
+            const_roots = {"opts": SymDict("opts", transport=list(transport))}
+            forced = {REST_ASYNC_ATOM: rest_async}
+            tops = {}
+
+            def variants_of(name):
+                if name not in tops:
+                    vs, _ = cover(ts, name, constraints=CONSTRAINTS, const_roots=const_roots, base_forced=forced,
+                                  known_roots={"api", "opts", "service", "proto", "snippet_index"})
+                    good = [v for v in vs if v.tree() is not None]
+                    tops[name] = (good, [top_level_names(v, v.tree()) for v in good])
+                return tops[name]
+
+            for name in lib_templates:
+                if "%service" in name and name not in emitted:
+                    continue
+                vs, _ = variants_of(name)
+                seen = set()
+                for sk in vs:
+                    for level, module, names, node, guarded in rel_imports(sk, sk.tree()):
+                        key = (level, sk.describe(module), tuple(sk.describe(n) for n in names), guarded)
+                        if key in seen:
+                            continue
+                        seen.add(key)
+                        target, why = resolve_template(ts, name, level, module, sk)
+                        w = sk.where(node)
+                        where = os.path.join(core.TEMPLATES, w[0])
+                        construct = f"from {'.' * level}{sk.describe(module)} import {', '.join(sk.describe(n) for n in names)}"
+                        if target is None:
+                            # `from . import x` style: names are sub-modules
+                            if not module and level == 1:
+                                continue
+                            r4.instance()
+                            r4.check(guarded, where, w[1], construct, f"{why} ({cfg})", config=cfg)
+                            continue
+                        r4.instance({"import": construct, "target": target, "config": cfg})
+                        if "%service" in target and target not in emitted:
+                            r5.check(guarded, where, w[1], construct,
+                                     f"imports {target}, which Generator._render_template skips under {cfg}", config=cfg)
+                            continue
+                        tvs, ttops = variants_of(target)
+                        r4.need(tvs, f"skeletons of {target}")
+                        for n in names:
+                            dn = norm_roots(sk.describe(n))
+                            if dn == "*":
+                                continue
+                            missing = [i for i, tn in enumerate(ttops) if dn not in tn]
+                            # the importing variant fixes some atoms; require the name in every target variant
+                            # that agrees with the importer on the atoms both decided
+                            bad = None
+                            a = {norm_roots(k): v for k, v in sk.valuation.assigned.items()}
+                            for i in missing:
+                                b = {norm_roots(k): v for k, v in tvs[i].valuation.assigned.items()}
+                                if all(bool(b.get(k, v)) == bool(v) for k, v in a.items() if k in b):
+                                    bad = tvs[i]
+                                    break
+                            r4.check(bad is None or guarded, where, w[1], construct + f" [{dn}]",
+                                     f"{target} does not bind '{dn}' at top level in a variant consistent with the importer ({cfg})",
+                                     config=cfg)
+
+            # registries
+            for tname, label in ((SERVICE_DIR + "client.py.j2", "client metaclass"),
+                                 (SERVICE_DIR + "transports/__init__.py.j2", "transports/__init__")):
+                vs, _ = variants_of(tname)
+                r5.need(vs, f"skeletons of {tname}")
+                expected = (["grpc", "grpc_asyncio"] if "grpc" in transport else []) + (["rest"] if "rest" in transport else []) \
+                    + (["rest_asyncio"] if ("rest" in transport and rest_async) else [])
+                for sk in vs[:6]:
+                    keys = []
+                    first_node = None
+                    for n in ast.walk(sk.tree()):
+                        pass
+                    for n in _ordered_registry_stores(sk.tree()):
+                        keys.append(n[0])
+                        first_node = first_node or n[1]
+                    r5.need(first_node is not None or not expected, f"_transport_registry assignments in {label}")
+                    w = sk.where(first_node) if first_node is not None else (tname, 0)
+                    r5.check(keys == expected, os.path.join(core.TEMPLATES, w[0]), w[1],
+                             f"_transport_registry keys in {label}",
+                             f"under {cfg} the registry assigns {keys}; expected {expected} (gRPC first so that it is the default)",
+                             config=cfg)
+
+
+def _ordered_registry_stores(tree):
+    out = []
+    for n in ast.walk(tree):
+        if isinstance(n, ast.Assign) and len(n.targets) == 1 and isinstance(n.targets[0], ast.Subscript):
+            t = n.targets[0]
+            if isinstance(t.value, ast.Name) and t.value.id == "_transport_registry" and isinstance(t.slice, ast.Constant):
+                out.append((t.slice.value, n))
+    out.sort(key=lambda x: (x[1].lineno, x[1].col_offset))
+    return out
+
+
+# ---------------------------------------------------------------------------
+# C01.6 with_context exhaustiveness
+
+WRAPPER_MODULES = ("gapic.schema.wrappers", "gapic.schema.api", "gapic.schema.metadata")
+
+
+def contains_wrapper(t, with_ctx_classes) -> bool:
+    if t[0] == "cls":
+        return t[1].qual in with_ctx_classes
+    if t[0] in ("opt",):
+        return contains_wrapper(t[1], with_ctx_classes)
+    if t[0] == "seq":
+        return contains_wrapper(t[1], with_ctx_classes)
+    if t[0] == "map":
+        return contains_wrapper(t[2], with_ctx_classes)
+    if t[0] in ("union", "tuple"):
+        return any(contains_wrapper(x, with_ctx_classes) for x in t[1])
+    return False
+
+
+# fields that are deliberately not re-bound, with reasons
+WITH_CONTEXT_EXCEPTIONS = {
+    ("Service", "visible_resources"):
+        "read-only view used only for resource type names and path patterns (Service.resource_messages); no "
+        "module-qualified identifier is rendered from the messages reached through it",
+}
+
+
+def check_with_context(report, pm: PyModel):
+    r6 = report.rule("C01.6", "with_context of every schema wrapper re-binds every wrapper-typed dataclass field "
+                              "(or the wrapper has none)", floor=8)
+    with_ctx = {ci.qual for ci in pm.classes.values() if "with_context" in ci.members and ci.module.name in WRAPPER_MODULES}
+    r6.need(len(with_ctx) >= 8, "classes defining with_context")
+    for q in sorted(with_ctx):
+        ci = pm.classes[q]
+        fn = ci.members["with_context"].node
+        rebound = set()
+        whole_self = False
+        for n in ast.walk(fn):
+            if isinstance(n, ast.Call) and ast.unparse(n.func) in ("dataclasses.replace", "replace"):
+                for k in n.keywords:
+                    if k.arg:
+                        rebound.add(k.arg)
+            if isinstance(n, ast.Call) and isinstance(n.func, ast.Name) and n.func.id in ("type",):
+                pass
+        # also constructor-style rebuilds: ClassName(field=..., ...)
+        for n in ast.walk(fn):
+            if isinstance(n, ast.Call) and (ast.unparse(n.func) in (ci.name, "type(self)", "self.__class__")):
+                for k in n.keywords:
+                    if k.arg:
+                        rebound.add(k.arg)
+        wrapper_fields = []
+        for name, mem in ci.members.items():
+            if mem.kind != "field":
+                continue
+            t = parse_ann(pm, ci.module, mem.ann)
+            if contains_wrapper(t, with_ctx):
+                wrapper_fields.append(name)
+        r6.instance({"class": ci.name, "wrapper_fields": wrapper_fields, "rebound": sorted(rebound)})
+        for f in wrapper_fields:
+            if (ci.name, f) in WITH_CONTEXT_EXCEPTIONS:
+                r6.note(f"exception {ci.name}.{f}: {WITH_CONTEXT_EXCEPTIONS[(ci.name, f)]}")
+                continue
+            r6.check(f in rebound, ci.module.path, fn.lineno, f"{ci.name}.with_context field {f}",
+                     f"{ci.name}.with_context does not re-bind wrapper-typed field '{f}': references reached through it keep "
+                     f"the old collision context and may render an unaliased (unbound) module name")
+
+
+# ---------------------------------------------------------------------------
+# C01.7 JSON artefacts
+
+
+def check_json(report, pm: PyModel):
+    r7 = report.rule("C01.7", "emitted JSON artefacts are produced by MessageToJson", floor=2)
+    ts = TemplateSet(core.TEMPLATES)
+    name = "%namespace/%name_%version/gapic_metadata.json.j2"
+    r7.need(ts.exists(name), name)
+    from ..tmodel import render
+    sk = render(ts, name)
+    txt = sk.describe(sk.text).strip()
+    r7.instance(txt)
+    r7.check(re.fullmatch(r"\{api\.gapic_metadata_json\(opts\)\}", txt) is not None, ts.path(name), 1, txt,
+             "gapic_metadata.json.j2 must print exactly api.gapic_metadata_json(opts)")
+    for qual in ("gapic.schema.api.API.gapic_metadata_json", "gapic.samplegen_utils.snippet_index.SnippetIndex.get_metadata_json"):
+        fi = pm.func(qual)
+        rets = [n for n in ast.walk(fi.node) if isinstance(n, ast.Return) and n.value is not None]
+        r7.need(rets, qual + " return")
+        r7.instance(qual)
+        for ret in rets:
+            src = ast.unparse(ret.value)
+            ok = "MessageToJson(" in src
+            if not ok and isinstance(ret.value, ast.Name):
+                # returned variable assigned from MessageToJson / re-serialised json
+                for n in ast.walk(fi.node):
+                    if isinstance(n, ast.Assign) and any(isinstance(t, ast.Name) and t.id == ret.value.id for t in n.targets):
+                        if "MessageToJson(" in ast.unparse(n.value) or "json.dumps(" in ast.unparse(n.value):
+                            ok = True
+            r7.check(ok, fi.module.path, ret.lineno, f"{qual}: return {src[:80]}",
+                     "JSON artefact is not the result of MessageToJson / json.dumps")
+
+
+# ---------------------------------------------------------------------------
+# C01.K constraint justification
+
+
+def _any_over_methods(pm, cls, prop, attr):
+    """`prop` of `cls` is any(m.<attr> for m in self.methods.values())."""
+    ci = pm.cls(cls)
+    mem = pm.member(ci, prop) if ci else None
+    if mem is None:
+        return False
+    body = strip_docstring(mem.node.body)
+    if len(body) != 1 or not isinstance(body[0], ast.Return):
+        return False
+    v = body[0].value
+    if not (isinstance(v, ast.Call) and isinstance(v.func, ast.Name) and v.func.id == "any" and v.args
+            and isinstance(v.args[0], ast.GeneratorExp)):
+        return False
+    g = v.args[0]
+    return ast.unparse(g.elt).endswith("." + attr) and "self.methods.values()" in ast.unparse(g.generators[0].iter)
+
+
+def check_constraints(report, pm: PyModel):
+    rk = report.rule("C01.K", "every atom constraint used to prune valuations is justified by the Python construct it cites", floor=10)
+    wr = pm.module("gapic.schema.wrappers").path
+    for prop, attr in (("has_lro", "lro"), ("has_extended_lro", "extended_lro"), ("has_pagers", "paged_result_field"),
+                       ("any_server_streaming", "server_streaming"), ("any_client_streaming", "client_streaming"),
+                       ("any_deprecated", "is_deprecated"), ("any_extended_operations_methods", "operation_service")):
+        rk.instance(f"Service.{prop} = any(m.{attr} ...)")
+        rk.check(_any_over_methods(pm, "gapic.schema.wrappers.Service", prop, attr), wr, 0, f"Service.{prop}",
+                 f"Service.{prop} is no longer `any(m.{attr} for m in self.methods.values())`; constraint K rows relying on it are stale")
+    # Method.void compares with google.protobuf.Empty; lro requires Operation output
+    void = pm.member(pm.cls("gapic.schema.wrappers.Method"), "void")
+    rk.need(void is not None, "Method.void")
+    src = ast.unparse(void.node)
+    rk.instance("Method.void")
+    rk.check("google.protobuf.Empty" in src or ("Empty" in src and "protobuf" in src), wr, void.node.lineno, "Method.void",
+             "Method.void no longer compares the output type with google.protobuf.Empty (K-lro-void / K-paged-void)")
+    lro = pm.func("gapic.schema.api._ProtoBuilder._maybe_get_lro")
+    rk.instance("_maybe_get_lro")
+    rk.check("google.longrunning.Operation" in ast.unparse(lro.node), lro.module.path, lro.node.lineno, "_maybe_get_lro",
+             "_maybe_get_lro no longer requires output google.longrunning.Operation (K-lro-void, K-lro-paged)")
+    # _fields_mapping drops non-primitive fields of cross-package requests (K-map-samepkg)
+    fm = pm.func("gapic.schema.wrappers.Method._fields_mapping")
+    ok = False
+    for n in ast.walk(fm.node):
+        if isinstance(n, ast.If) and isinstance(n.test, ast.BoolOp) and isinstance(n.test.op, ast.And) \
+                and any(isinstance(b, ast.Continue) for b in n.body):
+            parts = [ast.unparse(v) for v in n.test.values]
+            if "cross_pkg_request" in parts and "not field.is_primitive" in parts:
+                ok = True
+    assigned = any(isinstance(n, ast.Assign) and ast.unparse(n.targets[0]) == "cross_pkg_request"
+                   and ast.unparse(n.value) == "self.input.ident.package != self.ident.package" for n in ast.walk(fm.node))
+    rk.instance("_fields_mapping")
+    rk.check(ok and assigned, fm.module.path, fm.node.lineno, "Method._fields_mapping",
+             "_fields_mapping no longer skips non-primitive fields of cross-package requests (K-map-samepkg)")
+    # Field.map requires message + repeated?  map = bool(self.repeated and self.message and self.message.map)
+    fmap = pm.member(pm.cls("gapic.schema.wrappers.Field"), "map")
+    rk.need(fmap is not None, "Field.map")
+    s = ast.unparse(fmap.node)
+    rk.instance("Field.map")
+    rk.check("self.repeated" in s and "self.message" in s, wr, fmap.node.lineno, "Field.map",
+             "Field.map no longer requires a repeated message field (K-map-repeated, K-map-samepkg)")
+    # enforce_valid_method_settings rejects streaming methods (K-autopop-unary-*)
+    ev = pm.func("gapic.schema.api.API.enforce_valid_method_settings")
+    s = ast.unparse(ev.node)
+    rk.instance("enforce_valid_method_settings")
+    rk.check("client_streaming" in s and "server_streaming" in s, ev.module.path, ev.node.lineno, "enforce_valid_method_settings",
+             "enforce_valid_method_settings no longer rejects streaming methods (K-autopop-unary-c/s)")
+    # FullRequest.flattenable is always False (sample profile)
+    sg = pm.module("gapic.samplegen.samplegen")
+    calls = [n for n in ast.walk(sg.tree) if isinstance(n, ast.Call) and ast.unparse(n.func).endswith("FullRequest")]
+    rk.need(calls, "FullRequest(...) constructions")
+    for c in calls:
+        kw = {k.arg: ast.unparse(k.value) for k in c.keywords}
+        rk.instance("FullRequest(flattenable=False)")
+        rk.check(kw.get("flattenable", "False") == "False", sg.path, c.lineno, "FullRequest(flattenable=...)",
+                 "sample profile assumes request.flattenable is always False")
+
+
+def run(report, pm: PyModel):
+    check_module_graph(report, pm)
+    check_with_context(report, pm)
+    check_json(report, pm)
+    check_constraints(report, pm)
